@@ -6,7 +6,7 @@ from ..gen.progs import push, op, b1
 from ..ref import ed25519 as E
 from ..ref.opsem import message
 
-INV = ['CheckHonest', 'CheckFailsIfAltered', 'DecryptVerifies', 'ExtractRecovers', 'AdapterNotASig', 'F13Fails']
+INV = ['ZeroTweakIsASig', 'CheckHonest', 'CheckFailsIfAltered', 'DecryptVerifies', 'ExtractRecovers', 'AdapterNotASig', 'F13Fails']
 G = E.encode(E.B)
 ONE = b'\x01' + bytes(31)
 
@@ -51,6 +51,15 @@ def nacl_verify(pk, m, sig):
 def triple(F, seed, m, t, alt, t_dec, ctor, other_seed, other_m, flipper=None):
     """(check, decrypted-verifies, extract) for one concrete case; flipper(name, bytes) alters one check input"""
     X = E.public_key(seed)
+    if E.sc(t) % E.L == 0:
+        # T = identity: the constructor must refuse it, and the check must not take a plain signature for an adapter
+        ident = b'\x01' + bytes(31)
+        made = run(F, push(seed) + push(m) + push(ident) + op('MAKE_ADAPTER_SIG_PUBLIC'))
+        sig = E.sign(seed, m)
+        chk = run(F, push(sig[32:]) + push(sig[:32]) + push(m) + push(ident) + push(X) + op('CHECK_ADAPTER_SIG'))
+        if made is None and chk != [b'\xff']:
+            return ('refused', 'nosig', 'extract')
+        return ('identity-tweak-accepted:' + ('make ' if made is not None else '') + ('check' if chk == [b'\xff'] else ''), 'nosig', 'extract')
     T = E.base_mult_noclamp(t)
     if ctor == 'pub':
         st = run(F, push(seed) + push(m) + push(T) + op('MAKE_ADAPTER_SIG_PUBLIC'))
@@ -261,7 +270,7 @@ def main(tier: str, seed: int) -> int:
                 '(accept iff the adapter checks and its decryption verifies) - under sigflags that do / do not mask present '
                 'sigfields, judged by TLC.')
     rep.assumptions = ['symbolic algebra: claims hold up to hash collisions / discrete-log coincidences',
-                       'tweak scalars congruent to 0 are excluded (T = identity is not a valid point)']
+                       'the edge scalar 0 (T = identity) must be refused by the constructor and by the check: ZeroTweakIsASig shows an adapter for it would be a signature']
     quick = tier == 'quick'
     scncheck.mc(rep, 'Adapter', 'mc', INV, run_mc, known=known, workers=4)
     import multiprocessing as mp
